@@ -307,6 +307,11 @@ fn now_ms() -> u64 {
 /// A case that runs far longer than any terminating case is journaled as `hang` and the
 /// worker exits with code 97; the supervisor confirms it by replaying the case alone.
 pub fn start_watchdog(log_path: String) {
+    // Under the interpreter a terminating case takes seconds to minutes; the supervisor's
+    // wall-clock watchdog bounds those runs instead.
+    if cfg!(miri) {
+        return;
+    }
     let limit_ms: u64 = std::env::var("OQ3_CASE_TIMEOUT_S").ok().and_then(|v| v.parse().ok()).unwrap_or(20) * 1000;
     std::thread::spawn(move || loop {
         std::thread::sleep(std::time::Duration::from_millis(250));
@@ -332,6 +337,9 @@ pub struct RunArgs {
     pub start: u64,
     pub careful: bool,
     pub limit: Option<u64>,
+    /// Sized-down runs (Miri): execute only about this many cases per stream and shard, spread
+    /// evenly over the stream, instead of every case of the shard.
+    pub per_stream: Option<u64>,
 }
 
 const BATCH: u64 = 2048;
@@ -379,6 +387,10 @@ pub fn run_property(prop: &dyn Property, args: &RunArgs) -> std::io::Result<()> 
         // first g >= max(lo, start) with g % nshards == shard
         let from = lo.max(args.start);
         let mut g = from + ((args.shard + args.nshards - from % args.nshards) % args.nshards);
+        let step = match args.per_stream {
+            Some(k) => args.nshards * (st.count / (args.nshards * k.max(1))).max(1),
+            None => args.nshards,
+        };
         // sample spacing: ~2 samples per stream per shard
         let sample_every = (st.count / args.nshards / 2).max(1);
         while g < hi {
@@ -417,7 +429,7 @@ pub fn run_property(prop: &dyn Property, args: &RunArgs) -> std::io::Result<()> 
                     jstr(&format!("{}:{}: {}", p.file, p.line, p.msg))
                 )?;
                 log.flush()?;
-                g += args.nshards;
+                g += step;
                 continue;
             }
             if let Some(reason) = &obs.inconclusive {
@@ -461,7 +473,7 @@ pub fn run_property(prop: &dyn Property, args: &RunArgs) -> std::io::Result<()> 
                     jstr(&truncate(&obs.note, 600))
                 )?;
             }
-            g += args.nshards;
+            g += step;
         }
         if done_limit {
             break;
